@@ -278,10 +278,10 @@ class Collada(object):
             raise DaeBrokenRefError('Trying to load an auxiliary file %s from disk but we are reading from a zip file' % fname)
         basepath = os.path.dirname(self.filename)
         aux_path = os.path.normpath(os.path.join(basepath, fname))
-        if not os.path.exists(aux_path):
+        if not os.path.isfile(aux_path):
             raise DaeBrokenRefError('Auxiliar file %s not found on disk' % fname)
-        fdata = open(aux_path, 'rb')
-        return fdata.read()
+        with open(aux_path, 'rb') as fdata:
+            return fdata.read()
 
     def _wrappedFileLoader(self, aux_file_loader):
         def __wrapped(fname):
